@@ -78,7 +78,7 @@ func (P) exec(line string) string {
 }
 
 func (P) Generate(g *core.Gen) {
-	for i := g.N(2400, 12000); i > 0; i-- {
+	for i := g.N(2000, 12000); i > 0; i-- {
 		kind := "imm"
 		if i%2 == 0 {
 			kind = "mut"
@@ -135,7 +135,7 @@ func (P) Generate(g *core.Gen) {
 	for i := g.N(2, 8); i > 0; i-- {
 		genLru(g.R, i%2 == 0, emit)
 	}
-	for i := g.N(4, 12); i > 0; i-- {
+	for i := g.N(3, 12); i > 0; i-- {
 		g.Case("parallel-blocks", true, genParBlocks(g.R))
 	}
 	for i := g.N(3, 30); i > 0; i-- {
